@@ -793,10 +793,13 @@ impl MdkStorageProvider for MdkMemoryStorage {
     fn create_group_snapshot(&self, group_id: &GroupId, name: &str) -> Result<(), MdkStorageError> {
         // Create a group-scoped snapshot that only captures data for this group.
         // This ensures that rolling back this snapshot won't affect other groups.
+        //
+        // The snapshot registry is locked first and kept locked while the group's state is read, so that
+        // taking the snapshot and registering it are one step for other threads (lock order: registry,
+        // then inner; `rollback_group_to_snapshot` uses the same order).
+        let mut snapshots = self.group_snapshots.write();
         let snapshot = self.create_group_scoped_snapshot(group_id);
-        self.group_snapshots
-            .write()
-            .insert((group_id.clone(), name.to_string()), snapshot);
+        snapshots.insert((group_id.clone(), name.to_string()), snapshot);
         Ok(())
     }
 
@@ -806,10 +809,10 @@ impl MdkStorageProvider for MdkMemoryStorage {
         name: &str,
     ) -> Result<(), MdkStorageError> {
         let key = (group_id.clone(), name.to_string());
-        // Remove and restore the snapshot (consume it)
-        let snapshot = self
-            .group_snapshots
-            .write()
+        // Remove and restore the snapshot (consume it). The registry stays locked until the state is
+        // restored: a concurrent caller that finds the snapshot gone must also find it applied.
+        let mut snapshots = self.group_snapshots.write();
+        let snapshot = snapshots
             .remove(&key)
             .ok_or_else(|| MdkStorageError::NotFound("Snapshot not found".to_string()))?;
         self.restore_group_scoped_snapshot(snapshot);
